@@ -174,7 +174,13 @@ func (s *Sorts) TagOf(t types.Type) int {
 	if v, ok := s.typeTags[k]; ok {
 		return v
 	}
-	v := len(s.typeTags) + 1
+	// deterministic tag: independent of which other functions were encoded before
+	v := int(hashString(k)%2000000000) + 1
+	for _, used := range s.typeTags {
+		if used == v {
+			v++
+		}
+	}
 	s.typeTags[k] = v
 	s.tagOrder = append(s.tagOrder, k)
 	return v
